@@ -10,11 +10,6 @@ TABLE = {
                   "ValueError; QuantityError is the documented result for user classes",
         "properties": None,
     },
-    "T3|lex_char|ValueError from raise ValueError*": {
-        "reason": "unreachable: the Preserve enum is closed (FALSE, COMMENT, UNIT, QUOTE, NONDECIMAL) and every member "
-                  "is handled by the preceding branches; the preserve dict is only ever built by the lexer helpers",
-        "properties": None,
-    },
     "T3|lex_multichar_comments|ValueError from raise ValueError*": {
         "reason": "unreachable: lex_comment() calls lex_multichar_comments only when char is in c_info['multi_chars'], "
                   "which is non-empty only if the grammar has a multi-character comment pair, so comments is not empty",
